@@ -500,7 +500,9 @@ def groupselectmin(table, key, value, presorted=False, buffersize=None,
 
     # N.B., sorting by value destroys any existing order by key, so the key
     # sort cannot be skipped even if the input was presorted
-    return groupselectfirst(sort(table, value, reverse=False), key,
+    return groupselectfirst(sort(table, value, reverse=False,
+                                 buffersize=buffersize, tempdir=tempdir,
+                                 cache=cache), key,
                             presorted=False, buffersize=buffersize,
                             tempdir=tempdir, cache=cache)
 
@@ -516,7 +518,9 @@ def groupselectmax(table, key, value, presorted=False, buffersize=None,
 
     # N.B., sorting by value destroys any existing order by key, so the key
     # sort cannot be skipped even if the input was presorted
-    return groupselectfirst(sort(table, value, reverse=True), key,
+    return groupselectfirst(sort(table, value, reverse=True,
+                                 buffersize=buffersize, tempdir=tempdir,
+                                 cache=cache), key,
                             presorted=False, buffersize=buffersize,
                             tempdir=tempdir, cache=cache)
 
